@@ -51,7 +51,7 @@ def rule_ops_forward(prop, repo, types=None):
             assign = tr.endswith("Assign")
             v = tb.final_value(("deref", 1)) if assign else tb.return_value()
             nargs = 1 if op == "neg" else 2
-            ok, why = forward_ok(repo, b, v, op, nargs)
+            ok, why = shared.forwards(repo, b, lambda val: forward_ok(repo, b, val, op, nargs), op, ("deref", 1) if assign else 0)
             R.check(ok, "%s:ops:%s" % (prop, item), "%s does not forward to `%s` on (self%s) in order: %s" % (item, op, ", rhs" if nargs == 2 else "", why), b.file_line(), item,
                     sample={"impl": item, "forwards": show(v, maxdepth=2)[:120]} if R.instances % 25 == 1 else None)
     # the *_inplace functions themselves
@@ -354,7 +354,7 @@ def rule_comm(prop, repo):
             R.fail_closed("%s:comm:%s" % (prop, w), "%s not found" % w)
             continue
         rv = repo.tb(b).return_value()
-        ok = rv[0] == "call" and rv[1].name == "mul" and [strip(a) for a in rv[2]] == [("param", 2), ("param", 1)]
+        ok, _ = shared.forwards(repo, b, lambda rv: rv[0] == "call" and rv[1].name == "mul" and [strip(a) for a in rv[2]] == [("param", 2), ("param", 1)], "smul_rev")
         R.check(ok, "%s:comm:%s" % (prop, w), "%s is not `other * self`: %s" % (w, show(rv, maxdepth=2)), b.file_line(), w, sample={"impl": w, "is": "other * self"})
     for w in ("<crate::G1 as core::ops::Mul<crate::Fr>>::mul", "<crate::G2 as core::ops::Mul<crate::Fr>>::mul"):
         b = F.bodies.get(w)
@@ -363,7 +363,7 @@ def rule_comm(prop, repo):
             R.fail_closed("%s:comm:%s" % (prop, w), "%s not found" % w)
             continue
         rv = repo.tb(b).return_value()
-        ok = rv[0] == "agg" and strip(rv[3][0])[0] == "call" and strip(rv[3][0])[1].name == "mul" and [strip(a) for a in strip(rv[3][0])[2]] == [("field", ("param", 1), 0), ("field", ("param", 2), 0)]
+        ok, _ = shared.forwards(repo, b, lambda rv: rv[0] == "agg" and strip(rv[3][0])[0] == "call" and strip(rv[3][0])[1].name == "mul" and [strip(a) for a in strip(rv[3][0])[2]] == [("field", ("param", 1), 0), ("field", ("param", 2), 0)], "smul")
         R.check(ok, "%s:comm:%s" % (prop, w), "%s is not G(self.0 * other.0): %s" % (w, show(rv, maxdepth=3)), b.file_line(), w, sample={"impl": w, "is": "G(self.0 * other.0)"})
     return R.finish()
 
